@@ -294,7 +294,10 @@ class Interp:
             m = base.cls.lookup(attr)
             if m is not None:
                 if m.is_property:
-                    return self.call_func(m, [], {}, node, self_obj=base)
+                    v = self.call_func(m, [], {}, node, self_obj=base)
+                    if m.is_cached_property:
+                        base.attrs[name] = v  # computed once per object, then an instance attribute
+                    return v
                 return BoundMethod(m, base)
             ca = None
             for k in base.cls.mro():
